@@ -243,6 +243,8 @@ func connAlphabet() []string {
 		gw.EvC("CONNECT(c1,0)", gw.Connect("c1", 0, false, true)),
 		gw.EvC("AUTH(PLAIN u1/p1)", gw.AuthPlain("u1", "p1")),
 		gw.EvC("AUTH(PLAIN u2/p2)", gw.AuthPlain("u2", "p2")),
+		gw.EvC("AUTH(PLAIN u3/empty password)", gw.AuthPlain("u3", "")),
+		gw.EvC("AUTH(PLAIN empty user/p4)", gw.AuthPlain("", "p4")),
 		gw.EvC("AUTH(PLAIN 2 parts)", gw.AuthRaw("PLAIN", []byte("u\x00p"))),
 		gw.EvC("AUTH(PLAIN 4 parts)", gw.AuthRaw("PLAIN", []byte("\x00u\x00p\x00x"))),
 		gw.EvC("AUTH(method X)", gw.AuthRaw("X", []byte("\x00u\x00p"))),
